@@ -141,6 +141,14 @@ func Encode(hrp string, data []byte) (string, error) {
 
 // Decode decodes a Bech32 string. If the string is uppercase, the HRP will be uppercase.
 func Decode(s string) (hrp string, data []byte, err error) {
+	// Only printable ASCII is valid anywhere in the string. This has to be
+	// checked before any case mapping: some non-ASCII characters, like U+212A
+	// KELVIN SIGN, lower-case to a character of the Bech32 alphabet.
+	for p, c := range s {
+		if c < 33 || c > 126 {
+			return "", nil, fmt.Errorf("invalid character: s[%d]=%d", p, c)
+		}
+	}
 	if strings.ToLower(s) != s && strings.ToUpper(s) != s {
 		return "", nil, fmt.Errorf("mixed case")
 	}
